@@ -206,6 +206,7 @@ def explore(pack_name, harness_name, label, params):
         pack = importlib.import_module(pack_name)
         harness = getattr(pack, harness_name)
         srcdb = SourceDB()
+        interp = Interp(repo_root(), srcdb)
         pending = [[]]
         while pending:
             prefix = pending.pop()
@@ -215,7 +216,7 @@ def explore(pack_name, harness_name, label, params):
                 break
             pctx = PathCtx(prefix, pending, res.stats)
             sym.set_ctx(pctx)
-            interp = Interp(repo_root(), srcdb)
+            interp.reset_path()
             V = VCtx(pctx, interp, res)
             try:
                 harness(V, **params)
